@@ -99,6 +99,10 @@ def check(ctx):
             continue           # positions are computed on the source: only sources the preprocessor leaves unchanged
         tree = svtree.parse_tree_line(tl[0])
         bs = boundaries(tree, text)
+        if k == "lib":
+            # an unquoted file path of a library map may start with ANY byte but blank, ',' and ';' (is_not(",; ")): no
+            # byte "cannot start a token" there, the stop-byte clause is about SystemVerilog source text
+            bs = []
         for b in (bs if not q or deep else r.sample(bs, min(len(bs), 6))):
             stop = r.choice(STOP)
             mutated = (text[:b] + stop.encode() + text[b:]).decode("utf-8")
@@ -161,6 +165,32 @@ def check(ctx):
             cc = Case("m%d" % n); n += 1
             cc.add("want", "tree").add("run", "parse_%s_str" % k, hx(mutated), hx("t.sv"))
             meta[cc.id] = ("delim", k, mutated, off, w, s)
+            cases.append(cc)
+    # 1b. many origin segments (k leading comments): the fault is the last byte of its segment -- directly followed by a
+    # skipped `ifdef group, by the end of an included file, by a macro usage
+    for kk in range(0, 26):
+        lead = "".join("/* c%d */\n" % j for j in range(kk))
+        trail = "".join("/* t%d */\n" % j for j in range(16))      # enough later segments for the map's B-tree to split
+        stop = r.choice(STOP)
+        for shape in range(3):
+            cc = Case("m%d" % n); n += 1
+            cc.add("want", "tree")
+            if shape == 0:
+                pre = lead + "module m; wire a"
+                src = pre + stop + "`ifdef UNDEF_\n wire x;\n`endif\n; wire b; endmodule\n" + trail
+                cc.add("run", "parse_sv_str", hx(src), hx("t.sv"))
+                meta[cc.id] = ("stop", "sv", src, len(pre.encode()), "t.sv", src)
+            elif shape == 1:
+                inc = "wire q"
+                src = lead + "module m;\n`include \"i.svh\"\n; wire b; endmodule\n" + trail
+                cc.add("file", hx("i.svh"), hx(inc + stop))
+                cc.add("run", "parse_sv_str", hx(src), hx("top.sv"))
+                meta[cc.id] = ("stop", "sv", src + "\n---- i.svh ----\n" + inc + stop, len(inc.encode()), "i.svh", src)
+            else:
+                pre = lead + "`define W 8\nmodule m; wire [7:0] a"
+                src = pre + stop + "`W ; endmodule\n" + trail
+                cc.add("run", "parse_sv_str", hx(src), hx("t.sv"))
+                meta[cc.id] = ("stop", "sv", src, len(pre.encode()), "t.sv", src)
             cases.append(cc)
     # 2. preprocessor-level lexical faults
     for t, fault in [("a \"unterminated\n", 2), ("x /* open\n", 2), ("y \\ z\n", 2), ("module m; \"s\" wire \"q\n", 19), ("ok\n`include \"i.svh\"\n", None)]:
